@@ -232,7 +232,7 @@ Proof.
       unfold Inv3.inst3. cbn [i_pc upd_pc i_leaves i_rctx].
       split; [eapply complete_mono; eauto|]. split; [assumption|]. split; [assumption|].
       right. left. exists (r_ups (i_rctx x)). split; [|apply kd_equiv_refl].
-      unfold spath_of. eapply do_upload_ok. rewrite Wsz, Wrt. exact D.
+      unfold spath_of. eapply do_upload_ok. exact D.
     + destruct (end_round w1 i x (Some ENonFatal)) as [w2 o2] eqn:E2. cbn [fst].
       replace w2 with (fst (end_round w1 i x (Some ENonFatal))) by (rewrite E2; reflexivity).
       eapply end_round_inv3'; try eassumption. intros _. eapply complete_mono; eauto.
